@@ -29,18 +29,31 @@ import (
 // (still open) with its recorded script.
 func genHistory(t *rapid.T, withRemoval bool) *World {
 	useProfile(profSmall)
-	nW := rapid.IntRange(1, 2).Draw(t, "wallets")
+	nW := rapid.IntRange(1, 3).Draw(t, "wallets")
 	ctl := xdb.NewCtl()
 	worldRecCtl = ctl
 	w := newWorldRec(t, nW, 20, func(d mwdb.DB) mwdb.DB { return xdb.Wrap(d, ctl) })
 	if rapid.IntRange(0, 1).Draw(t, "withKeystoreImport") == 0 {
 		w.importFromKeystore(t)
 	}
-	removed := false
+	removals, lateImports := 0, 0
+	var importing []*mwallet // accepted imports whose background scan has not been waited for
+	settle := func() {
+		// wait for background work; wallets whose import finished join the model
+		w.finishTasks(t)
+		for _, m := range importing {
+			w.syncIssued(t, m)
+			w.wallets = append(w.wallets, m)
+		}
+		importing = nil
+	}
 	n := rapid.IntRange(6, 22).Draw(t, "historyLen")
 	for i := 0; i < n; i++ {
-		switch rapid.SampledFrom([]string{"newAddress", "mine", "mine", "mine", "reorg", "deliver", "deliver", "deliver", "remove"}).Draw(t, "hact") {
+		switch rapid.SampledFrom([]string{"newAddress", "mine", "mine", "mine", "reorg", "deliver", "deliver", "deliver", "remove", "lateImport", "serve", "settle"}).Draw(t, "hact") {
 		case "newAddress":
+			if len(w.wallets) == 0 {
+				continue
+			}
 			m := w.wallets[rapid.IntRange(0, len(w.wallets)-1).Draw(t, "wallet")]
 			if ready, rem, ex := w.walletStatus(t, m.id); len(m.issued) < 5 && ex && ready && !rem {
 				class := uint16(massutil.AddressClassWitnessV0)
@@ -62,20 +75,65 @@ func genHistory(t *rapid.T, withRemoval bool) *World {
 				w.actDeliver(t)
 			}
 		case "remove":
-			if withRemoval && !removed && len(w.wallets) > 1 && rapid.IntRange(0, 2).Draw(t, "doRemove") == 0 {
+			// only the request: the background steps run when the history says so, so that several
+			// tasks can be unfinished at once
+			if withRemoval && removals < 2 && len(w.wallets) > 1 && rapid.IntRange(0, 1).Draw(t, "doRemove") == 0 {
 				m := w.wallets[len(w.wallets)-1]
+				if ready, rem, ex := w.walletStatus(t, m.id); !ex || !ready || rem {
+					continue
+				}
 				w.record(hstep{Kind: "remove", Wallet: m.id, Pass: m.keys.Pass})
 				if err := w.env.W.RemoveWallet(m.id, m.keys.Pass); err != nil {
 					t.Fatalf("RemoveWallet: %v", err)
 				}
-				removed = true
-				w.finishTasks(t)
+				removals++
 				w.wallets = w.wallets[:len(w.wallets)-1]
 				w.flag("removal-in-history")
-				w.logf("remove wallet %s", m.id[:10])
+				if removals == 2 || len(importing) > 0 {
+					w.flag("two-tasks-unfinished")
+				}
+				w.logf("remove wallet %s requested", m.id[:10])
 			}
+		case "lateImport":
+			if lateImports >= 1 || rapid.IntRange(0, 1).Draw(t, "doLateImport") != 0 {
+				continue
+			}
+			ent := rapid.SliceOfN(rapid.Byte(), 16, 16).Draw(t, "lateEntropy")
+			keys, _ := sim.EntropyFor(ent, "pass8Xlate")
+			if keys == nil {
+				continue
+			}
+			dup := false
+			for _, o := range w.wallets {
+				dup = dup || o.id == keys.ID
+			}
+			if dup {
+				continue
+			}
+			w.record(hstep{Kind: "import", Keys: keys})
+			ws, err := w.env.W.ImportWalletWithMnemonic(&keystore.WalletParams{Mnemonic: keys.Mnemonic, PrivatePassphrase: []byte(keys.Pass), Remarks: "late", AddressGapLimit: 20})
+			if err != nil {
+				t.Fatalf("ImportWalletWithMnemonic: %v", err)
+			}
+			lateImports++
+			importing = append(importing, &mwallet{keys: keys, id: ws.WalletID, owns: map[[32]byte]bool{}})
+			w.flag("late-import")
+			if removals > 0 && w.taskPending(t) {
+				w.flag("two-tasks-unfinished")
+			}
+			w.logf("import wallet %s requested", ws.WalletID[:10])
+		case "serve":
+			if w.taskPending(t) {
+				w.record(hstep{Kind: "serve"})
+				if _, err := w.env.ServeWorker(20 * time.Second); err != nil {
+					t.Fatalf("HARNESS: worker: %v", err)
+				}
+			}
+		case "settle":
+			settle()
 		}
 	}
+	settle()
 	if !w.tipAnnounced {
 		w.actMine(t, true)
 	}
